@@ -353,17 +353,27 @@ def entryBytes (t : Nat × Nat × Nat) : Bytes := beEnc 4 t.1 ++ beEnc 4 t.2.1 +
 theorem entryBytes_length (t : Nat × Nat × Nat) : (entryBytes t).length = 12 := by
   simp [entryBytes]
 
-theorem flatMap_entry_length (ts : List (Nat × Nat × Nat)) :
-    (ts.flatMap entryBytes).length = 12 * ts.length := by
+/-- an entry on the wire: the 12 counter bytes followed by its vendor data -/
+def ventryBytes (t : (Nat × Nat × Nat) × Bytes) : Bytes := entryBytes t.1 ++ t.2
+
+theorem flatMap_ventry_length (v : Nat) (ts : List ((Nat × Nat × Nat) × Bytes)) (hv : ∀ t ∈ ts, t.2.length = v) :
+    (ts.flatMap ventryBytes).length = (12 + v) * ts.length := by
   induction ts with
   | nil => rfl
-  | cons t ts ih => simp only [List.flatMap_cons, List.length_append, entryBytes_length, ih, List.length_cons]; omega
+  | cons t ts ih =>
+    have h1 := hv t (List.mem_cons_self ..)
+    have h2 := ih (fun x hx => hv x (List.mem_cons_of_mem _ hx))
+    simp only [List.flatMap_cons, List.length_append, ventryBytes, entryBytes_length, h1, h2, List.length_cons, Nat.mul_add,
+      Nat.mul_one]
+    omega
 
-theorem busEntries_conv (b trail : Bytes) (ht : trail.length < 12) :
-    ∀ (ts : List (Nat × Nat × Nat)) (pre : Bytes) (fuel : Nat), ts.length ≤ fuel →
-      (∀ t ∈ ts, t.1 < 2 ^ 32 ∧ t.2.1 < 2 ^ 32 ∧ t.2.2 < 2 ^ 32) →
-      tecmpBusEntries b (pre ++ ts.flatMap entryBytes ++ trail) fuel pre.length =
-        ts.map (fun t => tecmpPacket b t.1 ⟨tyIf, busObj t.1 t.2.1 t.2.2⟩) := by
+/-- entries of `12 + v` bytes each (`v` vendor bytes behind the counters), then fewer than `12 + v` trailing bytes: one packet per
+    entry, read from the entry's first 12 bytes -/
+theorem busEntries_conv (b trail : Bytes) (v : Nat) (ht : trail.length < 12 + v) :
+    ∀ (ts : List ((Nat × Nat × Nat) × Bytes)) (pre : Bytes) (fuel : Nat), ts.length ≤ fuel →
+      (∀ t ∈ ts, (t.1.1 < 2 ^ 32 ∧ t.1.2.1 < 2 ^ 32 ∧ t.1.2.2 < 2 ^ 32) ∧ t.2.length = v) →
+      tecmpBusEntries b (pre ++ ts.flatMap ventryBytes ++ trail) v fuel pre.length =
+        ts.map (fun t => tecmpPacket b t.1.1 ⟨tyIf, busObj t.1.1 t.1.2.1 t.1.2.2⟩) := by
   intro ts
   induction ts with
   | nil =>
@@ -376,51 +386,60 @@ theorem busEntries_conv (b trail : Bytes) (ht : trail.length < 12) :
       rfl
   | cons t ts ih =>
     intro pre fuel hfuel hwf
-    obtain ⟨h1, h2, h3⟩ := hwf t (List.mem_cons_self ..)
+    obtain ⟨⟨h1, h2, h3⟩, hvl⟩ := hwf t (List.mem_cons_self ..)
+    have hvs : ∀ x ∈ t :: ts, x.2.length = v := fun x hx => (hwf x hx).2
     cases fuel with
     | zero => simp at hfuel
     | succ fuel =>
-      have hp : pre ++ (t :: ts).flatMap entryBytes ++ trail =
-          (pre ++ entryBytes t) ++ ts.flatMap entryBytes ++ trail := by
+      have hp : pre ++ (t :: ts).flatMap ventryBytes ++ trail =
+          (pre ++ ventryBytes t) ++ ts.flatMap ventryBytes ++ trail := by
         simp only [List.flatMap_cons, List.append_assoc]
-      have hplen : (pre ++ (t :: ts).flatMap entryBytes ++ trail).length =
-          pre.length + 12 * (ts.length + 1) + trail.length := by
-        simp only [List.length_append, flatMap_entry_length, List.length_cons]
-      have ha : beAt (pre ++ (t :: ts).flatMap entryBytes ++ trail) pre.length 4 = t.1 := by
-        rw [show pre ++ (t :: ts).flatMap entryBytes ++ trail =
-          pre ++ (beEnc 4 t.1 ++ (beEnc 4 t.2.1 ++ beEnc 4 t.2.2 ++ ts.flatMap entryBytes ++ trail)) by
-            simp only [List.flatMap_cons, entryBytes, List.append_assoc],
+      have hplen : (pre ++ (t :: ts).flatMap ventryBytes ++ trail).length =
+          pre.length + (12 + v) * (ts.length + 1) + trail.length := by
+        simp only [List.length_append, flatMap_ventry_length v (t :: ts) hvs, List.length_cons]
+      have ha : beAt (pre ++ (t :: ts).flatMap ventryBytes ++ trail) pre.length 4 = t.1.1 := by
+        rw [show pre ++ (t :: ts).flatMap ventryBytes ++ trail =
+          pre ++ (beEnc 4 t.1.1 ++ (beEnc 4 t.1.2.1 ++ beEnc 4 t.1.2.2 ++ t.2 ++ ts.flatMap ventryBytes ++ trail)) by
+            simp only [List.flatMap_cons, ventryBytes, entryBytes, List.append_assoc],
           C13.beAt_at _ _ _ 4 _ rfl]
         exact Nat.mod_eq_of_lt h1
-      have hm : beAt (pre ++ (t :: ts).flatMap entryBytes ++ trail) (pre.length + 4) 4 = t.2.1 := by
-        rw [show pre ++ (t :: ts).flatMap entryBytes ++ trail =
-          (pre ++ beEnc 4 t.1) ++ (beEnc 4 t.2.1 ++ (beEnc 4 t.2.2 ++ ts.flatMap entryBytes ++ trail)) by
-            simp only [List.flatMap_cons, entryBytes, List.append_assoc],
+      have hm : beAt (pre ++ (t :: ts).flatMap ventryBytes ++ trail) (pre.length + 4) 4 = t.1.2.1 := by
+        rw [show pre ++ (t :: ts).flatMap ventryBytes ++ trail =
+          (pre ++ beEnc 4 t.1.1) ++ (beEnc 4 t.1.2.1 ++ (beEnc 4 t.1.2.2 ++ t.2 ++ ts.flatMap ventryBytes ++ trail)) by
+            simp only [List.flatMap_cons, ventryBytes, entryBytes, List.append_assoc],
           C13.beAt_at _ _ _ 4 _ (by simp)]
         exact Nat.mod_eq_of_lt h2
-      have he : beAt (pre ++ (t :: ts).flatMap entryBytes ++ trail) (pre.length + 8) 4 = t.2.2 := by
-        rw [show pre ++ (t :: ts).flatMap entryBytes ++ trail =
-          (pre ++ beEnc 4 t.1 ++ beEnc 4 t.2.1) ++ (beEnc 4 t.2.2 ++ (ts.flatMap entryBytes ++ trail)) by
-            simp only [List.flatMap_cons, entryBytes, List.append_assoc],
+      have he : beAt (pre ++ (t :: ts).flatMap ventryBytes ++ trail) (pre.length + 8) 4 = t.1.2.2 := by
+        rw [show pre ++ (t :: ts).flatMap ventryBytes ++ trail =
+          (pre ++ beEnc 4 t.1.1 ++ beEnc 4 t.1.2.1) ++ (beEnc 4 t.1.2.2 ++ (t.2 ++ ts.flatMap ventryBytes ++ trail)) by
+            simp only [List.flatMap_cons, ventryBytes, entryBytes, List.append_assoc],
           C13.beAt_at _ _ _ 4 _ (by simp)]
         exact Nat.mod_eq_of_lt h3
-      have hnext := ih (pre ++ entryBytes t) fuel (by simpa using hfuel)
+      have hnext := ih (pre ++ ventryBytes t) fuel (by simpa using hfuel)
         (fun x hx => hwf x (List.mem_cons_of_mem _ hx))
-      rw [← hp, List.length_append, entryBytes_length] at hnext
+      have hvb : (ventryBytes t).length = 12 + v := by
+        simp only [ventryBytes, List.length_append, entryBytes_length, hvl]
+      rw [← hp, List.length_append, hvb] at hnext
       unfold tecmpBusEntries
-      rw [if_pos (by rw [hplen]; omega)]
+      rw [if_pos (by rw [hplen, Nat.mul_add]; omega)]
       simp only [ha, hm, he, hnext, List.map_cons, busObj]
 
-theorem bus_conv (b generic trail : Bytes) (ts : List (Nat × Nat × Nat)) (hg : generic.length = 12)
-    (ht : trail.length < 12) (hwf : ∀ t ∈ ts, t.1 < 2 ^ 32 ∧ t.2.1 < 2 ^ 32 ∧ t.2.2 < 2 ^ 32) :
-    tecmpBus b (generic ++ ts.flatMap entryBytes ++ trail) =
-      ts.map (fun t => tecmpPacket b t.1 ⟨tyIf, busObj t.1 t.2.1 t.2.2⟩) := by
-  have hplen : (generic ++ ts.flatMap entryBytes ++ trail).length = 12 + 12 * ts.length + trail.length := by
-    simp only [List.length_append, flatMap_entry_length, hg]
+/-- the bus-status payload as laid out on the wire: 12 generic bytes declaring `v` vendor bytes per entry (u16 @4), entries of
+    `12 + v` bytes, fewer than `12 + v` trailing bytes (an incomplete entry, or nothing) -/
+theorem bus_conv (b generic trail : Bytes) (v : Nat) (ts : List ((Nat × Nat × Nat) × Bytes)) (hg : generic.length = 12)
+    (hv : beAt generic 4 2 = v) (ht : trail.length < 12 + v)
+    (hwf : ∀ t ∈ ts, (t.1.1 < 2 ^ 32 ∧ t.1.2.1 < 2 ^ 32 ∧ t.1.2.2 < 2 ^ 32) ∧ t.2.length = v) :
+    tecmpBus b (generic ++ ts.flatMap ventryBytes ++ trail) =
+      ts.map (fun t => tecmpPacket b t.1.1 ⟨tyIf, busObj t.1.1 t.1.2.1 t.1.2.2⟩) := by
+  have hplen : (generic ++ ts.flatMap ventryBytes ++ trail).length = 12 + (12 + v) * ts.length + trail.length := by
+    simp only [List.length_append, flatMap_ventry_length v ts (fun x hx => (hwf x hx).2), hg]
+  have hvd : beAt (generic ++ ts.flatMap ventryBytes ++ trail) 4 2 = v := by
+    rw [List.append_assoc, beAt_append_left _ _ _ _ (by omega), hv]
   unfold tecmpBus
-  rw [if_neg (by omega)]
-  have := busEntries_conv b trail ht ts generic
-    ((generic ++ ts.flatMap entryBytes ++ trail).length / 12 + 1) (by rw [hplen]; omega) hwf
+  rw [if_neg (by omega), hvd]
+  have hmul : 12 * ts.length ≤ (12 + v) * ts.length := Nat.mul_le_mul_right _ (by omega)
+  have := busEntries_conv b trail v ht ts generic
+    ((generic ++ ts.flatMap ventryBytes ++ trail).length / 12 + 1) (by rw [hplen]; omega) hwf
   rw [hg] at this
   exact this
 
@@ -465,7 +484,7 @@ theorem lin_good (b p : Bytes) : ∀ x ∈ tecmpLin b p, Good x := by
         Nat.lt_of_le_of_lt (slice_length_le _ _ _) (byteAt_lt p 1)
       exact good_packet _ _ _ _ _ rfl (linObj_facts _ _ _ hn).2.2.2.2.2
 
-theorem busEntries_good (b p : Bytes) : ∀ (fuel off : Nat), ∀ x ∈ tecmpBusEntries b p fuel off, Good x := by
+theorem busEntries_good (b p : Bytes) (v : Nat) : ∀ (fuel off : Nat), ∀ x ∈ tecmpBusEntries b p v fuel off, Good x := by
   intro fuel
   induction fuel with
   | zero => intro off x hx; simp [tecmpBusEntries] at hx
@@ -484,7 +503,7 @@ theorem bus_good (b p : Bytes) : ∀ x ∈ tecmpBus b p, Good x := by
   unfold tecmpBus
   split
   · intro x hx; simp at hx
-  · exact busEntries_good b p _ _
+  · exact busEntries_good b p _ _ _
 
 theorem decimal_length_le (n k : Nat) (hk : 0 < k) (h : n < 10 ^ k) : (decimal n).length ≤ k := by
   unfold decimal
@@ -513,6 +532,8 @@ theorem cmSetData_valid (b s1 s2 s3 s4 v : Bytes) (hb : 26 ≤ b.length)
 
 theorem cm_good (b p : Bytes) : ∀ x ∈ tecmpCm b p, Good x := by
   unfold tecmpCm
+  split
+  · intro x hx; simp at hx
   split
   · intro x hx; simp at hx
   · intro x hx
